@@ -35,29 +35,33 @@ type BannerSpec struct {
 
 // Scenario is the replayable description of one end-to-end run.
 type Scenario struct {
-	Family      string              `json:"family"`               // asa ios linux panos nsx
-	Front       string              `json:"front"`                // drc | do-approve
-	NoLogDir    bool                `json:"no_log_dir,omitempty"` // drc without -L
-	Quiet       bool                `json:"quiet,omitempty"`      // drc -q
-	Verb        string              `json:"verb"`                 // approve | compare
-	Device      string              `json:"device"`
-	Routes      []string            `json:"routes,omitempty"`
-	IPTables    string              `json:"iptables,omitempty"`
-	Target      map[string]string   `json:"target"` // code files: router, ipv6/router, router.raw
-	Hostname    string              `json:"hostname"`
-	BannerText  string              `json:"banner_text"`
-	CheckBanner string              `json:"checkbanner"`
-	Password    string              `json:"password"`
-	HostKey     bool                `json:"hostkey,omitempty"`
-	EnablePass  bool                `json:"enable_pass,omitempty"`
-	Faults      []FaultSpec         `json:"faults,omitempty"`
-	Banners     []BannerSpec        `json:"banners,omitempty"`
-	Members     []httpdev.PanMember `json:"members,omitempty"` // PAN-OS HA members (one per name in name_list)
-	APIKey      string              `json:"api_key,omitempty"`
-	Token       string              `json:"token,omitempty"`
-	Timeout     int                 `json:"timeout,omitempty"`
-	Modified    bool                `json:"modified,omitempty"`
-	NoStateKeep bool                `json:"-"`
+	Family      string            `json:"family"`               // asa ios linux panos nsx
+	Front       string            `json:"front"`                // drc | do-approve
+	NoLogDir    bool              `json:"no_log_dir,omitempty"` // drc without -L
+	Quiet       bool              `json:"quiet,omitempty"`      // drc -q
+	Verb        string            `json:"verb"`                 // approve | compare
+	Device      string            `json:"device"`
+	Routes      []string          `json:"routes,omitempty"`
+	IPTables    string            `json:"iptables,omitempty"`
+	Target      map[string]string `json:"target"` // code files: router, ipv6/router, router.raw
+	Hostname    string            `json:"hostname"`
+	BannerText  string            `json:"banner_text"`
+	CheckBanner string            `json:"checkbanner"`
+	Password    string            `json:"password"`
+	HostKey     bool              `json:"hostkey,omitempty"`
+	EnablePass  bool              `json:"enable_pass,omitempty"`
+	Faults      []FaultSpec       `json:"faults,omitempty"`
+	// NSX: objects on the manager whose ids lack the Netspoc prefix (raw JSON).
+	ForeignGroups   []string            `json:"foreign_groups,omitempty"`
+	ForeignServices []string            `json:"foreign_services,omitempty"`
+	ForeignPolicies []string            `json:"foreign_policies,omitempty"`
+	Banners         []BannerSpec        `json:"banners,omitempty"`
+	Members         []httpdev.PanMember `json:"members,omitempty"` // PAN-OS HA members (one per name in name_list)
+	APIKey          string              `json:"api_key,omitempty"`
+	Token           string              `json:"token,omitempty"`
+	Timeout         int                 `json:"timeout,omitempty"`
+	Modified        bool                `json:"modified,omitempty"`
+	NoStateKeep     bool                `json:"-"`
 }
 
 func (sc *Scenario) Case(property string) *props.Case {
@@ -307,7 +311,8 @@ func Execute(sc *Scenario) *Outcome {
 		for _, f := range sc.Faults {
 			faults = append(faults, httpdev.Fault{Pos: f.Pos, Kind: f.Kind})
 		}
-		nsx = httpdev.NewNsxServer(st, httpdev.NsxOpts{User: "admin", Password: e.Password, Token: sc.Token, Faults: faults})
+		nsx = httpdev.NewNsxServer(st, httpdev.NsxOpts{User: "admin", Password: e.Password, Token: sc.Token, Faults: faults,
+			ForeignGroups: sc.ForeignGroups, ForeignServices: sc.ForeignServices, ForeignPolicies: sc.ForeignPolicies})
 		defer nsx.Close()
 		simulate = nsx.URL()
 		o.HashBefore = nsx.StateHash()
